@@ -479,7 +479,9 @@ def model_based_encoder_loss(
             the_bins, jax.nn.softmax(pred_reward_logits_t)
         )
         reward_mse = masked_mse_loss(
-            pred_reward_t, target_reward_t, prev_not_done
+            pred_reward_t[:, jnp.newaxis],
+            target_reward_t[:, jnp.newaxis],
+            prev_not_done,
         )
         done_loss = jnp.where(
             environment_terminates,
